@@ -76,7 +76,7 @@ let op_of k = match k with
   | 2 -> (fun a b -> if int_of_z a <= int_of_z b then a else b)
   | 3 -> (fun a b -> if int_of_z a <> 0 then a else b)
   | _ -> (fun a b -> z_of_int (int_of_z a + int_of_z b))
-let ident_of k = match k with 1 -> min_int | 2 -> max_int | _ -> 0
+let ident_of k = match k with 1 -> - (1 lsl 60) | 2 -> 1 lsl 60 | _ -> 0
 let arr_fun (a : 'a array) (d : 'a) = fun i -> let k = int_of_nat i in if k >= 0 && k < Array.length a then a.(k) else d
 let dump_fun o n = List.init n (fun i -> o (nat_of_int i))
 let serial_ops n = if n = 0 then [] else [OFinal (O, O, nat_of_int n)]
@@ -104,10 +104,13 @@ let run_case alg p1 p2 (x : int list) (y : int list) recs : int list option =
       let run2 = List.mapi (fun i k -> (k, n + i)) y in
       (match pmerge lt_pair (nat_of_int (n + List.length y + 1)) nthr pairs run2 with
        | Some r -> Some (flat r) | None -> None)
-  | "sort_u32" | "sort_i32" ->
+  | "sort_i32" | "sort_i64" ->
+      (* signed integral keys: generic SortFunctor -> mergeSort with std::less (radix is unsigned-only since 1f3be2f4) *)
+      (match merge_sort (fun (a : int) b -> a < b) nthr x with Some r -> Some r | None -> None)
+  | "sort_u32" ->
       if List.exists (fun v -> v < 0) x then None else
       (match radix_sort nthr (nat_of_int 4) zx rtree with Some r -> Some (List.map int_of_z r) | None -> None)
-  | "sort_u64" | "sort_i64" | "sort_sz" ->
+  | "sort_u64" | "sort_sz" ->
       if List.exists (fun v -> v < 0) x then None else
       (match radix_sort nthr (nat_of_int 8) zx rtree with Some r -> Some (List.map int_of_z r) | None -> None)
   | "reduce" -> Some [int_of_z (reduce_par (op_of p2) zx (z_of_int p1) rtree)]
@@ -185,7 +188,7 @@ let () =
                      (match r1 with "M" :: m :: r2 -> let (y, _) = take (int_of_string m) r2 [] in (x, y) | _ -> (x, []))
                  | _ -> ([], [])) in
                ignore ints;
-               (match (try run_case alg (int_of_string p1) (int_of_string p2) x y rs with Stack_overflow -> None) with
+               (match (try run_case alg (int_of_string p1) (int_of_string p2) x y rs with Stack_overflow | Failure _ | Not_found | Invalid_argument _ -> None) with
                 | Some out ->
                     Printf.printf "R %s %s legal=%d OUT %d%s\n" id alg (if legal then 1 else 0) (List.length out)
                       (String.concat "" (List.map (fun v -> " " ^ string_of_int v) out))
